@@ -523,4 +523,8 @@ def closed(t, params=()):
             return 'call of %s' % show(f)[:60]
         if k in ('stale', 'obj', 'lpvar', 'lpproblem', 'upd', 'fold', 'wsum'):
             return k
+        if k == 'accum' and any(e[0] not in ('setidx', 'addidx') for e in x[2]):
+            return 'sequential accumulation (%s) without a normal form' % ', '.join(sorted({e[0] for e in x[2]}))
+        if k in ('carried', 'prefix'):
+            return 'loop-carried value'
     return None
